@@ -48,10 +48,12 @@ namespace rkcommon {
       }
 
      private:
-      // declaration before taskImpl: ensure initialization before task finishes
+      // declaration before taskImpl: ensure initialization before task starts
+      // (the task assigns retValue and sets jobFinished, possibly before the
+      // constructor of taskImpl has returned)
       std::atomic<bool> jobFinished{false};
-      detail::AsyncTaskImpl<std::function<void()>> taskImpl;
       T retValue;
+      detail::AsyncTaskImpl<std::function<void()>> taskImpl;
     };
 
   }  // namespace tasking
